@@ -495,6 +495,10 @@ MIX_UNITS = [
 ]
 
 
+# WIDTH #n settings under which WRITE#-only sequences are run as well: a record is a unit whatever the width
+MIX_WIDTHS = [5, 9, 14]
+
+
 def run_mixed(part, w, units, case):
     s = w.s
     w.reset()
@@ -502,6 +506,8 @@ def run_mixed(part, w, units, case):
     if r.exc is not None or r.err is not None:
         _viol(part, w, 'open/output-failed', repr(r), case)
         return
+    if case.get('width'):
+        w.must(b'WIDTH #1,%d' % case['width'])
     for ui, (kind, body) in enumerate(units):
         if kind == 'W':
             args = []
@@ -569,6 +575,13 @@ def work_mixed(shard):
             part.n += 1
             part.traces += 1
             part.classes.add('mixed|%s|%s' % (''.join(u[0] for u in units), 'sl' if sl else 'nl'))
+            if all(u[0] == 'W' for u in units):
+                for width in MIX_WIDTHS:
+                    case = {'units': list(idxs), 'sl': sl, 'width': width}
+                    run_mixed(part, w, units, case)
+                    part.n += 1
+                    part.traces += 1
+                    part.classes.add('mixed|%s|%s|width%d' % (''.join(u[0] for u in units), 'sl' if sl else 'nl', width))
         part.sample({'units': list(cases[0]), 'sl': sl})
     finally:
         w.done()
@@ -673,7 +686,8 @@ def legs(ctx):
     mcases = [idxs for k in range(1, maxlen + 2) for idxs in product(range(len(MIX_UNITS)), repeat=k)]
     out.append(Leg('mixed', [(sl, ch) for sl in (False, True) for ch in chunked(mcases, 100)], work_mixed, exhaustive=True,
                    bound='all %d sequences of 1..%d units over %d (4 WRITE# records, 5 PRINT# lines incl. leading / trailing blanks and '
-                         'empty) in one file, read back with INPUT# / LINE INPUT# in the same order, x soft_linefeed off/on' % (
+                         'empty) in one file, read back with INPUT# / LINE INPUT# in the same order, x soft_linefeed off/on; the WRITE#-only sequences also '
+                         'under WIDTH #1,5 / 9 / 14' % (
                              len(mcases) * 2, maxlen + 1, len(MIX_UNITS))))
     lbyts = [b for b in range(1, 256) if b not in (0x0a, 0x0d, 0x1a)]
     out.append(Leg('line-bytes', [(sl, ch) for sl in (False, True) for ch in chunked(lbyts, 8)],
